@@ -1,7 +1,7 @@
 from vf.sx.ob import SX
 
 A = "src/biotite/sequence/align/"
-STUBS = ["table initialisation of align_optimal() (first row/column, negative-infinity sentinel) transcribed in kx_c08.init_linear/init_affine",
+STUBS = ["table initialisation of align_optimal() (first row/column) transcribed in kx_c08.init_linear/init_affine; the negative-infinity sentinel of the affine tables is NOT transcribed: the statements defining neg_inf are cut out of the current align_optimal source and evaluated over z3 integers (vf/kx/wslice.py)",
          "int32 scores as mathematical ints converted on every store (int mode), uint8 codes/trace flags as bit-vectors",
          "trace post-processing of align_optimal (flip, first occurrence = symbol) transcribed in kx_c08.postprocess",
          "fused instantiation CodeType1 = CodeType2 = uint8"]
